@@ -619,6 +619,13 @@ func (in *instance) create(ts time.Time) (fs []opsearch.Finding) {
 		if contains(got) {
 			rs, re, ok := refBucket(c.Unit, in.num, ts)
 			switch {
+			case ok && strings.Contains(cause, "legacy=none") && strings.Contains(cause, "dst=offset-differs-from-1970"):
+				// HOUR x N>1 in a zone whose offset changed since 1970: "anchored at local 1970-01-01" can be read on the
+				// wall clock or in absolute hours; demand only what both readings share: N hours long, on a local hour.
+				st := time.Unix(0, got.S).In(time.Local)
+				if got.E-got.S != int64(in.num)*int64(time.Hour) || st.Minute() != 0 || st.Second() != 0 || st.Nanosecond() != 0 {
+					fs = append(fs, in.finding("create", "new-segment-off-grid", cause, fmt.Sprintf("ts=%s got %v: want %d hours starting on a local hour", ts.Format(time.RFC3339Nano), got, in.num)))
+				}
 			case ok && strings.Contains(cause, "legacy=none"):
 				if got.S != rs.UnixNano() || got.E != re.UnixNano() {
 					fs = append(fs, in.finding("create", "new-segment-off-grid", cause, fmt.Sprintf("ts=%s got %v want %v", ts.Format(time.RFC3339Nano), got, rng{rs.UnixNano(), re.UnixNano()})))
